@@ -20,9 +20,9 @@ CheckEv(e) ==
              A == MxFromFlat(e.c.a, n, n, NoE)
              b == MxFromFlat(e.c.b, n, 1, NoE)
              C == MxFromFlat(e.c.c, n, n, NoE)
-             D == MxDet(A)
-             regular == D.t = "num" /\ Exact(D) /\ ~ExactZero(D)
-             singular == D.t = "num" /\ ExactZero(D)
+             Dt == MxDet(A)
+             regular == Dt.t = "num" /\ Exact(Dt) /\ ~ExactZero(Dt)
+             singular == Dt.t = "num" /\ ExactZero(Dt)
              sym == Symmetric(A)
              \* leading principal minors: algorithms documented "with no pivoting" need them all non-zero
              Lead(k) == MxDet([i \in 1..k |-> [j \in 1..k |-> A[i][j]]])
@@ -112,9 +112,9 @@ CheckEv(e) ==
                                s3 == [s2 EXCEPT ![n] = [j \in 1..n |-> VMul(VInt(-3), s2[n][j])]]
                                s4 == [i \in 1..n |-> [j \in 1..n |-> s3[i][IF j = 1 THEN 2 ELSE IF j = 2 THEN 1 ELSE j]]]
                            IN EqM("row/column operations", MOf(r.rowops), s4)
-         IN First(<< Scalar("det", r.det, D),
-                     Scalar("det_bareis", r.det_bareis, D),
-                     Scalar("det_berkowitz", r.det_berkowitz, D),
+         IN First(<< Scalar("det", r.det, Dt),
+                     Scalar("det_bareis", r.det_bareis, Dt),
+                     Scalar("det_berkowitz", r.det_berkowitz, Dt),
                      Inv("inv", r.inv),
                      Inv("inverse_pivoted_LU", r.inv_plu),
                      Inv("inverse_gauss_jordan", r.inv_gj),
